@@ -137,6 +137,9 @@ def judge(cmds, lines, rc, err, final):
         elif f[0] == 'pshared':
             if f[1] == '1':
                 prov.append('two callers that issued the same search at the same moment were handed metadata in the same memory')
+        elif f[0] == 'pchanged':
+            if f[1] == '1':
+                why = why or 'results handed to one caller changed when another caller, who had issued the same search at the same moment, overwrote the results it had been handed'
         elif f[0] == 'reading':
             reading = f[1]
         elif f[0] == 'value':
